@@ -33,6 +33,12 @@ func c05Decls(rt *rapid.T, pool *gen.Pool) []*refmodel.Decl {
 		d := &refmodel.Decl{Name: name, Enabled: true, Table: name, Filters: map[*refmodel.Type]*refmodel.Filter{}}
 		d.Block = []refmodel.BlockField{bf(field), bf("tx_hash")}
 		d.Columns = []refmodel.Column{col(field), col("tx_hash")}
+		if rapid.Bool().Draw(rt, "bothaddrs") {
+			// two address columns: references may name either
+			other := map[string]string{"tx_signer": "tx_to", "tx_to": "tx_signer"}[field]
+			d.Block = []refmodel.BlockField{bf(field), bf(other), bf("tx_hash")}
+			d.Columns = []refmodel.Column{col(field), col(other), col("tx_hash")}
+		}
 		if rapid.Bool().Draw(rt, "narrow") {
 			d.Block[0].Filter = gen.GenFilterFor(rt, "addr", pool)
 		}
@@ -55,6 +61,9 @@ func c05Decls(rt *rapid.T, pool *gen.Pool) []*refmodel.Decl {
 	refCol := func(d *refmodel.Decl) string {
 		if d.Event != nil {
 			return d.Event.Selected()[0].Column // an address column ("who" or "a", possibly a struct component)
+		}
+		if len(d.Block) == 3 && rapid.Bool().Draw(rt, "refsecondcol") {
+			return d.Block[1].Column
 		}
 		return d.Block[0].Column
 	}
@@ -187,7 +196,7 @@ func storedStrings(d *refmodel.Decl, rows []map[string]any) []string {
 }
 
 func c05Property(rt *rapid.T, ev *evid.Rec, reorgs bool) {
-	o := machineOpts{MaxBatch: 6, MaxConc: 3, InitBlocks: [2]int{2, 8}, Starts: []string{"one", "mid", "zero"}, CustomDecls: c05Decls, Stops: true}
+	o := machineOpts{MaxBatch: 6, MaxConc: 3, InitBlocks: [2]int{2, 8}, Starts: []string{"one", "mid", "zero"}, CustomDecls: c05Decls, Stops: true, TwoSources: true}
 	m := newMachine(rt, o)
 	defer m.Close()
 	w := m.w
